@@ -7,6 +7,7 @@ package props
 // the fake clock covers it without stubbing). Oracle: a ledger of open intervals per (IP, key).
 
 import (
+	"errors"
 	"fmt"
 	"math"
 	"net"
@@ -35,14 +36,17 @@ type C17Case struct {
 	IPs  []string `json:"ips"`
 	Keys int      `json:"keys"`
 	DB   bool     `json:"db"`
-	Ops  []C17Op  `json:"ops"`
+	// DBErr: the location database fails for some clients (an IPv4-only database asked about an IPv6 client, a
+	// corrupt record): their tunnel time counts all the same
+	DBErr bool    `json:"db_err,omitempty"`
+	Ops   []C17Op `json:"ops"`
 }
 
 var c17IPs = []string{"203.0.113.1", "203.0.113.2", "2001:db8::7", "198.51.100.9", "127.0.0.1", "10.0.0.5", "::ffff:203.0.113.1"}
 
 func genC17(maxOps int) func(t *rapid.T) C17Case {
 	return func(t *rapid.T) C17Case {
-		c := C17Case{IPs: rapid.SliceOfNDistinct(rapid.SampledFrom(c17IPs), 1, 4, rapid.ID[string]).Draw(t, "ips"), Keys: rapid.IntRange(1, 3).Draw(t, "keys"), DB: rapid.Bool().Draw(t, "db")}
+		c := C17Case{IPs: rapid.SliceOfNDistinct(rapid.SampledFrom(c17IPs), 1, 4, rapid.ID[string]).Draw(t, "ips"), Keys: rapid.IntRange(1, 3).Draw(t, "keys"), DB: rapid.Bool().Draw(t, "db"), DBErr: rapid.IntRange(0, 2).Draw(t, "dberr") == 0}
 		n := rapid.IntRange(1, maxOps).Draw(t, "nops")
 		for i := 0; i < n; i++ {
 			op := C17Op{Kind: rapid.SampledFrom([]string{"tcpOpen", "tcpOpen", "tcpAuth", "tcpAuth", "tcpClose", "udpAdd", "udpRemove", "advance", "advance", "scrape", "scrape"}).Draw(t, "kind")}
@@ -58,9 +62,12 @@ func genC17(maxOps int) func(t *rapid.T) C17Case {
 	}
 }
 
-type c17DB struct{}
+type c17DB struct{ failSome bool }
 
-func (c17DB) GetIPInfo(ip net.IP) (ipinfo.IPInfo, error) {
+func (d c17DB) GetIPInfo(ip net.IP) (ipinfo.IPInfo, error) {
+	if d.failSome && (ip.To4() == nil || ip[len(ip)-1]%2 == 1) {
+		return ipinfo.IPInfo{}, errors.New("lookup failed")
+	}
 	// location decided by the last byte, so that several locations occur
 	cc := []string{"US", "BR", "IR", ""}[int(ip[len(ip)-1])%4]
 	return ipinfo.IPInfo{CountryCode: ipinfo.CountryCode(cc), ASN: ipinfo.ASN{Number: int(ip[len(ip)-1]) % 3}}, nil
@@ -92,7 +99,10 @@ func runC17(t0 *testing.T) func(c C17Case, info *kit.Info) *kit.Finding {
 func c17InBubble(c C17Case, info *kit.Info) *kit.Finding {
 	var db ipinfo.IPInfoMap
 	if c.DB {
-		db = c17DB{}
+		db = c17DB{failSome: c.DBErr}
+		if c.DBErr {
+			info.Class("location-lookup-fails-for-some-clients")
+		}
 	}
 	sm, err := outline_prometheus.NewServiceMetrics(db)
 	if err != nil {
